@@ -21,4 +21,22 @@ CatBytes(h, idxSeq) ==
 SortedSeq(S) == SetToSortSeq(S, <)
 
 Meta(h) == h[1].meta
+
+\* the position-determined payload pattern the harness writes (0-based position)
+Pat(i, salt) == (i * 31 + 7 + salt * 13) % 251
+Pattern(len, salt) == [j \in 1..len |-> Pat(j - 1, salt)]
+
+\* does a logged data summary (len + bytes, or len + head/tail) equal `hdr \o Pattern(plen, salt)`?
+ExpAt(hdr, salt, k) == IF k <= Len(hdr) THEN hdr[k] ELSE Pat(k - Len(hdr) - 1, salt)
+DataIs(e, hdr, plen, salt) ==
+  LET total == Len(hdr) + plen IN
+  /\ e.len = total
+  /\ IF Has(e, "bytes") THEN e.bytes = [k \in 1..total |-> ExpAt(hdr, salt, k)]
+     ELSE /\ e.head = [k \in 1..16 |-> ExpAt(hdr, salt, k)]
+          /\ e.tail = [k \in 1..16 |-> ExpAt(hdr, salt, total - 16 + k)]
+
+\* sum of f over a set of indices
+RECURSIVE SumOver(_, _, _)
+SumOver(h, idxSeq, field) ==
+  IF idxSeq = <<>> THEN 0 ELSE h[Head(idxSeq)][field] + SumOver(h, Tail(idxSeq), field)
 =============================================================================
